@@ -336,7 +336,7 @@ def run(tier, seed):
     pf = lattice.PointsFile(pts)
     try:
         res = tlc.run("RBM", constants={"TMax": 1800, "Lanes": 32},
-                      defs={"Archs": "{<<1,1,2>>, <<2,1,3>>, <<1,2,2>>, <<2,2,2>>}" if quick else
+                      defs={"Archs": "{<<1,1,2>>, <<2,1,3>>, <<1,2,2>>}" if quick else
                             "{<<1,1,2>>, <<2,1,3>>, <<1,2,3>>, <<2,2,2>>, <<2,2,3>>}",
                             "Vals": "{-1, 1, 2}" if quick else "{-2, -1, 1, 2}"},
                       invariants=["WellDefined", "JointBothWays", "CondNormalised", "Reversible", "Stationary", "Export"],
